@@ -1,0 +1,5 @@
+//go:build !verif
+
+package cache
+
+func verifYield(label string, name string, tx *Transaction) {}
